@@ -396,6 +396,32 @@ class G:
             self.emit("isect %s %s" % (x, e2))
             self.emit("isect %s %s" % (e2, x))
             self.emit("isect %s %s" % (e0, e1))
+        # operands that TOUCH: the smallest value of one chunk is the largest value of the other's; the receiver grown by single
+        # insertions (its slice has spare capacity), a clone of it (exact capacity) and an edited one
+        for _ in range(2):
+            k = self.key()
+            base = k * CH
+            n1, n2 = r.choice([3, 50, 100, 600]), r.choice([1, 4, 50, 300])
+            lo = sorted(r.sample(range(0, 30000), n1))
+            hi = sorted(r.sample(range(lo[-1] + 1, 65536), n2))
+            for op in ("ior", "ixor", "iand", "iandnot"):
+                x, y, c = self.fresh(), self.fresh(), self.fresh()
+                self.emit("new %s" % x)
+                for v in lo[:-1]:
+                    self.emit("add %s %d" % (x, base + v)) if len(lo) <= 60 else None
+                if len(lo) > 60:
+                    for i in range(0, len(lo) - 1, 7):
+                        self.emit("addmany %s %s" % (x, " ".join(str(base + v) for v in lo[i:min(len(lo) - 1, i + 7)])))
+                self.emit("add %s %d" % (x, base + lo[-1]))
+                self.emit("of %s %s" % (y, " ".join(str(base + v) for v in [lo[-1]] + hi)))
+                self.emit("clone %s %s" % (c, x))
+                self.emit("%s %s %s" % (op, x, y))
+                self.emit("card %s" % x)
+                self.emit("%s %s %s" % (op, c, y))
+                e = self.fresh()
+                self.emit("clone %s %s" % (e, y))
+                self.emit("%s %s %s" % (op, e, c))
+                self.count("alg:touching")
         for _ in range(npairs):
             a, b, keys = self.pair()
             for op in ("and", "or", "xor", "andnot"):
